@@ -467,6 +467,10 @@ pub struct NodeCase {
     search_during: bool,
     /// (source selector, gap ms, datagram)
     dgrams: Vec<(u8, u16, Input)>,
+    /// every datagram addressed to the node (the answers of its contacts included) is delivered
+    /// this many times in the same instant (UDP may duplicate)
+    #[serde(default)]
+    dup: u8,
 }
 
 pub struct NodeTier;
@@ -489,8 +493,8 @@ impl Stage for NodeTier {
             2 => kmsg().prop_map(|m| Input { base: Base::Msg(m), muts: vec![] }),
             3 => heavy,
         ];
-        (any::<bool>(), any::<bool>(), any::<bool>(), vec((any::<u8>(), prop_oneof![Just(0u16), 0u16..40, 0u16..3000], dgram), 10..120))
-            .prop_map(|(v6, with_contacts, search_during, dgrams)| NodeCase { v6, with_contacts, search_during, dgrams })
+        (any::<bool>(), any::<bool>(), any::<bool>(), vec((any::<u8>(), prop_oneof![Just(0u16), 0u16..40, 0u16..3000], dgram), 10..120), prop_oneof![3 => Just(1u8), 2 => Just(2u8), 1 => Just(3u8)])
+            .prop_map(|(v6, with_contacts, search_during, dgrams, dup)| NodeCase { v6, with_contacts, search_during, dgrams, dup })
             .boxed()
     }
     fn classify_death(&self, _c: &NodeCase) -> String {
@@ -499,8 +503,9 @@ impl Stage for NodeTier {
     fn run(&self, c: &NodeCase) -> Outcome {
         let rt = paused_rt(5);
         rt.block_on(async {
-            let net = SimNet::new(Box::new(Instant0));
             let node = fam_addr(c.v6, 1, 6881);
+            let dup = c.dup.max(1) as usize;
+            let net = SimNet::new(Box::new(move |d: &Dgram| Fate::Deliver(vec![Duration::ZERO; if d.to == node { dup } else { 1 }])));
             let node_id: Id = [0x14; 20];
             let mut contacts = vec![];
             if c.with_contacts {
@@ -560,7 +565,7 @@ impl Stage for NodeTier {
         })
     }
     fn rule(&self) -> String {
-        "sequences of 10..120 datagrams: 50 % from the decode tier's generator (mutated), 20 % plain valid messages, 30 % valid messages with the transaction id / token / error text / an unknown value blown up to as much as the datagram allows, from strangers' and contacts' addresses of both families, gaps 0..3 s, injected into a live serving node that is idle or bootstrapping against 5 contacts (one silent) and optionally has a search running. Oracle afterwards: a ping gets exactly one correct reply; get_state (is_running), load_contacts, local_addr complete within 10 virtual seconds; a new search stream ends. Every case non-trivial".into()
+        "sequences of 10..120 datagrams: 50 % from the decode tier's generator (mutated), 20 % plain valid messages, 30 % valid messages with the transaction id / token / error text / an unknown value blown up to as much as the datagram allows, from strangers' and contacts' addresses of both families, gaps 0..3 s, injected into a live serving node that is idle or bootstrapping against 5 contacts (one silent) and optionally has a search running; in half of the cases the network delivers every datagram addressed to the node (the answers of its contacts included) 2 or 3 times in the same instant. Oracle afterwards: a ping gets exactly one correct reply; get_state (is_running), load_contacts, local_addr complete within 10 virtual seconds; a new search stream ends. Every case non-trivial".into()
     }
     fn sample(&self, c: &NodeCase) -> serde_json::Value {
         serde_json::json!({"v6": c.v6, "with_contacts": c.with_contacts, "n": c.dgrams.len(), "first": c.dgrams.iter().take(3).map(|d| super::c13::show(&build(&d.2)).chars().take(80).collect::<String>()).collect::<Vec<_>>()})
